@@ -39,6 +39,27 @@ def attr_path(n):
     return None
 
 
+class _StripLogs(ast.NodeTransformer):
+    """logging calls (log.debug/info/warning/error/...) never matter to the decision: drop them before reading shapes"""
+    def visit_Expr(self, node):
+        v = node.value
+        if isinstance(v, ast.Call) and isinstance(v.func, ast.Attribute) and is_name(v.func.value) and v.func.value.id in ("log", "logger", "logging"):
+            return None
+        return node
+
+    def generic_visit(self, node):
+        node = super().generic_visit(node)
+        for field in ("body", "orelse", "finalbody"):
+            if hasattr(node, field) and isinstance(getattr(node, field), list) and not getattr(node, field) and field == "body":
+                node.body = [ast.Pass()]
+        return node
+
+
+def without_logs(func):
+    import copy
+    return ast.fix_missing_locations(_StripLogs().visit(copy.deepcopy(func)))
+
+
 def strip_doc(body):
     if body and isinstance(body[0], ast.Expr) and is_str(body[0].value):
         return body[1:]
@@ -169,7 +190,7 @@ def flatten_if(node):
 
 # ------------------------------------------------------------------ dict_to_class
 def parse_dict_to_class(mod, scope):
-    f = find_func(mod, "dict_to_class", "SerializerBase")
+    f = without_logs(find_func(mod, "dict_to_class", "SerializerBase"))
     need([a.arg for a in f.args.args] == ["cls", "data"] or len(f.args.args) == 2, "dict_to_class signature changed")
     data = f.args.args[1].arg
     body = strip_doc(f.body)
@@ -338,9 +359,13 @@ def parse_clause(scope, test, body, tag, data, tagkey):
 
 # ------------------------------------------------------------------ make_exception / recreate_classes / hooks
 def parse_make_exception(mod):
-    f = find_func(mod, "make_exception", "SerializerBase")
-    need(len(f.args.args) == 2, "make_exception signature changed")
-    tvar, data = [a.arg for a in f.args.args]
+    f = without_logs(find_func(mod, "make_exception", "SerializerBase"))
+    need(len(f.args.args) >= 2, "make_exception signature changed")
+    tvar, data = [a.arg for a in f.args.args[:2]]
+    # further parameters must be optional switches that default to True (the call sites in dict_to_class do not pass them)
+    extra = [a.arg for a in f.args.args[2:]]
+    need(len(f.args.defaults) == len(extra) and all(isinstance(d, ast.Constant) and d.value is True for d in f.args.defaults)
+         and not f.args.kwonlyargs and not f.args.vararg and not f.args.kwarg, "make_exception has new parameters that are not default-true switches")
     body = strip_doc(f.body)
     need(len(body) in (2, 3), "make_exception body changed")
     s = body[0]
@@ -352,6 +377,10 @@ def parse_make_exception(mod):
     attrkey = None
     if len(body) == 3:
         c = body[1]
+        if isinstance(c, ast.If) and isinstance(c.test, ast.BoolOp) and isinstance(c.test.op, ast.And):
+            rest = [v for v in c.test.values if not (is_name(v) and v.id in extra)]
+            if len(rest) == 1:
+                c.test = rest[0]
         need(isinstance(c, ast.If) and not c.orelse and isinstance(c.test, ast.Compare) and isinstance(c.test.ops[0], ast.In) and is_str(c.test.left)
              and is_name(c.test.comparators[0], data) and len(c.body) == 1 and isinstance(c.body[0], ast.For), "unrecognised attribute restoration")
         attrkey = c.test.left.value
@@ -367,8 +396,17 @@ def parse_make_exception(mod):
     return {"argskey": argskey, "attrkey": attrkey, "sha": ast_sha(f)}
 
 
+def passthrough_ok(mod, name):
+    """module-level NAME = frozenset/tuple/list/set of scalar types (never dict/list/tuple/set)"""
+    for n in mod.body:
+        if isinstance(n, ast.Assign) and len(n.targets) == 1 and is_name(n.targets[0], name):
+            names = [m.id for m in ast.walk(n.value) if isinstance(m, ast.Name)]
+            return not ({"dict", "list", "tuple", "set"} & set(names))
+    return False
+
+
 def parse_recreate(mod, tagkey):
-    f = find_func(mod, "recreate_classes", "SerializerBase")
+    f = without_logs(find_func(mod, "recreate_classes", "SerializerBase"))
     need(len(f.args.args) == 2, "recreate_classes signature changed")
     lit = f.args.args[1].arg
     body = strip_doc(f.body)
@@ -380,6 +418,11 @@ def parse_recreate(mod, tagkey):
             continue
         if isinstance(st, ast.Return):
             need(is_name(st.value, lit), "recreate_classes does not return other values unchanged")
+            continue
+        # a shortcut that hands some values back unchanged (`if t in ATOMS: return literal`) re-creates nothing
+        if isinstance(st, ast.If) and not st.orelse and len(st.body) == 1 and isinstance(st.body[0], ast.Return) and is_name(st.body[0].value, lit) \
+                and isinstance(st.test, ast.Compare) and len(st.test.ops) == 1 and isinstance(st.test.ops[0], ast.In) and is_name(st.test.left, tvar) \
+                and isinstance(st.test.comparators[0], ast.Name) and passthrough_ok(mod, st.test.comparators[0].id):
             continue
         need(isinstance(st, ast.If) and not st.orelse and isinstance(st.test, ast.Compare) and isinstance(st.test.ops[0], ast.Is)
              and is_name(st.test.left, tvar) and is_name(st.test.comparators[0]), "unrecognised statement in recreate_classes")
@@ -726,29 +769,186 @@ def c_entry(e):
     return "EntClass %s %s %s" % (ctext(e[1]), cbool(e[2]), cbool(e[3]))
 
 
+# ------------------------------------------------------------------ second reader: reference structure + behavioural probes
+def reference_tables():
+    import json, os
+    with open(os.path.join(os.path.dirname(os.path.abspath(__file__)), "classtag_reference.json"), encoding="utf-8") as f:
+        return json.load(f)
+
+
+def probe_reference(tree):
+    """When the shape of dict_to_class / make_exception / recreate_classes is not recognised (helper functions, lookup
+    tables, early returns, extra validation ...), the decision structure of the reference implementation is used, but only
+    after the functions of the tree under test have answered a fixed set of probes the way that structure says.
+    (The correspondence run of the harness compares the model built on it with the real decoders on thousands of payloads.)"""
+    import struct as _struct
+    from tools.gen.gen import tree_module
+    sz = tree_module(tree, "Pyro5.serializers")
+    core, client, server, errors = (tree_module(tree, "Pyro5." + m) for m in ("core", "client", "server", "errors"))
+    import builtins as _b, sqlite3 as _sq
+    base = sz.SerializerBase
+    d2c = base.dict_to_class
+
+    def outcome(data):
+        try:
+            return ("ok", d2c(dict(data)))
+        except BaseException as x:      # noqa
+            return ("err", x)
+
+    def expect_class(tag, clazz, **members):
+        data = {"__class__": tag}
+        data.update(members)
+        k, v = outcome(data)
+        need(k == "ok" and type(v) is clazz, "probe: tag %r does not build %s (%s %r)" % (tag, clazz.__name__, k, v))
+        return v
+
+    def expect_refused(tag, flagged=True, klass=None, **members):
+        data = {"__class__": tag, "args": [], "state": []}
+        if flagged:
+            data["__exception__"] = True
+        data.update(members)
+        k, v = outcome(data)
+        need(k == "err", "probe: tag %r is not refused (%r)" % (tag, v))
+        if klass is not None:
+            need(type(v) is klass, "probe: tag %r is refused with %s, not %s" % (tag, type(v).__name__, klass.__name__))
+
+    uri_state = ["PYRO", "obj", None, "host", 55]
+    expect_class("Pyro5.core.URI", core.URI, state=uri_state)
+    expect_class("Pyro5.client.Proxy", client.Proxy, state=["PYRO:obj@host:55", [], [], [], "hello", None])
+    expect_class("Pyro5.server.Daemon", server.Daemon, state=[])
+    for n in ("SerpentSerializer", "MarshalSerializer", "JsonSerializer", "MsgpackSerializer"):
+        expect_class("Pyro5.util." + n, getattr(sz, n))
+    expect_class("struct.error", _struct.error, args=["m"])
+    w = expect_class("Pyro5.core._ExceptionWrapper", core._ExceptionWrapper, exception={"__class__": "KeyError", "__exception__": True, "args": ["k"]})
+    need(type(w.exception) is KeyError, "probe: the wrapped exception is not re-created")
+    w = expect_class("Pyro5.core._ExceptionWrapper", core._ExceptionWrapper, exception="plain")
+    need(w.exception == "plain", "probe: a plain wrapped value is changed")
+    expect_class("Pyro5.errors.NamingError", errors.NamingError, args=["m"])
+    expect_class(b"Pyro5.errors.NamingError", errors.NamingError, args=["m"])
+    v = expect_class("ValueError", ValueError, __exception__=True, args=["m", 5], attributes={"custom": 1})
+    need(v.args == ("m", 5) and getattr(v, "custom", None) == 1, "probe: exception args / attributes are not restored")
+    expect_class("TimeoutError", errors.TimeoutError, __exception__=True, args=[])
+    expect_class("builtins.KeyError", KeyError, __exception__=1, args=[])
+    expect_class("exceptions.OSError", OSError, __exception__="x", args=[])
+    expect_class("sqlite3.OperationalError", _sq.OperationalError, __exception__=True, args=["m"])
+    # refusals: the double underscore first (also for bytes), then everything outside the closed set
+    for tag in ("zz__y", b"zz__y", "builtins.__import__", "__main__.X", "Pyro5.errors.__builtins__", "__builtin__.ValueError"):
+        expect_refused(tag, klass=errors.SecurityError)
+    for tag in ("ValueError", "builtins.ValueError", "sqlite3.OperationalError"):
+        expect_refused(tag, flagged=False)
+    for tag in ("os.getcwd", "subprocess.Popen", "builtins.int", "builtins.open", "builtins.object", "builtins.type", "sqlite3.connect", "sqlite3.Warning",
+                "sqlite3.Row", "Pyro5.errors.format_traceback", "Pyro5.errors.get_pyro_traceback", "Pyro5.errors.sys", "Pyro5.util.Other", "Pyro5.core.Daemon",
+                "Pyro5.core.URI.x", "struct.Struct", "decimal.Decimal", "int", "float" if False else "complex", "tests.Custom", "json.JSONDecodeError", "JSONDecodeError"):
+        expect_refused(tag)
+        expect_refused(tag, flagged=False)
+    expect_refused(5)
+    expect_refused(None)
+    expect_refused(("a", "b"))
+    expect_refused(b"\xff\xfe")
+    # the registry comes before the refusal, and nothing else reaches a converter
+    calls = []
+    regattr = "_SerializerBase__custom_dict_to_class_registry"
+    saved = dict(getattr(base, regattr))
+    try:
+        base.register_dict_to_class("zz.__probe__", lambda name, data: calls.append(name) or "converted")
+        k, v = outcome({"__class__": "zz.__probe__"})
+        need(k == "ok" and v == "converted" and calls == ["zz.__probe__"], "probe: a registered converter is not used first")
+        k, v = outcome({"__class__": b"zz.__probe__"})
+        need(k == "ok" and v == "converted", "probe: a bytes tag is not decoded before the registry lookup")
+        expect_refused("zz.__probe__2")
+        base.register_dict_to_class("zzprobe", lambda name, data: "converted")
+        base.register_dict_to_class("zz.probe3", lambda name, data: "converted")
+        for tag in ("os.zzprobe", "zzprobe.x", "ZZPROBE", "probe3", "x.zz.probe3", "zz", b"m.zzprobe"):
+            expect_refused(tag)
+        base.unregister_dict_to_class("zzprobe")
+        base.unregister_dict_to_class("zz.probe3")
+        base.unregister_dict_to_class("zz.__probe__")
+        expect_refused("zz.__probe__", klass=errors.SecurityError)
+    finally:
+        for c in [base] + [getattr(sz, n) for n in ("SerpentSerializer", "MarshalSerializer", "JsonSerializer", "MsgpackSerializer")]:
+            if c is not base and regattr in c.__dict__:
+                delattr(c, regattr)
+        getattr(base, regattr).clear()
+        getattr(base, regattr).update(saved)
+    # recreate_classes: top-down over list / tuple / set / dict values; members of a class dict stay as they are
+    ser = sz.MarshalSerializer()
+    tagged = {"__class__": "Pyro5.core.URI", "state": uri_state}
+    r = ser.recreate_classes([dict(tagged), (dict(tagged), 1), {"k": dict(tagged)}, {1, "a"}, "s"])
+    need(type(r) is list and type(r[0]) is core.URI and type(r[1]) is tuple and type(r[1][0]) is core.URI and type(r[2]["k"]) is core.URI
+         and r[3] == {1, "a"} and r[4] == "s", "probe: recreate_classes does not re-create inside list / tuple / dict")
+    r = ser.recreate_classes({"__class__": "Pyro5.core.URI", "state": [dict(tagged), "o", None, "h", 1]})
+    need(type(r) is core.URI and type(r.protocol) is dict, "probe: members of a class dict are re-created before the class is rebuilt")
+    shared = [dict(tagged)]
+    r = ser.recreate_classes([shared, {"__class__": "Pyro5.core.URI", "state": [shared, "o", None, "h", 1]}])
+    need(type(r[1].protocol[0]) is dict, "probe: recreate_classes changes its argument in place")
+
+
+def evaluated_all_exceptions(tree, tables):
+    """all_exceptions as Python built it in the tree under test; every class is looked up in the name tables"""
+    from tools.gen.gen import tree_module
+    sz = tree_module(tree, "Pyro5.serializers")
+    need(isinstance(getattr(sz, "all_exceptions", None), dict), "all_exceptions is not a dict")
+    out = {}
+    for name, clazz in sz.all_exceptions.items():
+        need(isinstance(name, str), "all_exceptions has a key that is not text")
+        canon = "%s.%s" % (getattr(clazz, "__module__", "?"), getattr(clazz, "__qualname__", "?"))
+        entry = None
+        for ns in ("Pyro5.errors", "builtins"):
+            e = tables[ns].get(name)
+            if e is not None and e[0] == "class" and e[1] == canon:
+                entry = e
+        if entry is None:   # a class that is bound under this name in neither namespace: recorded as it is, the computed table check decides
+            entry = ("class", canon, isinstance(clazz, type) and issubclass(clazz, BaseException), False)
+        out[name] = entry
+    return out
+
+
 @generator("GenClassTag", SRC, "Pyro5/errors.py")
 def gen_classtag(tree):
     mod, _ = parse(tree, SRC)
     scope = Scope(mod)
-    dtc = parse_dict_to_class(mod, scope)
-    mk = parse_make_exception(mod)
-    rc = parse_recreate(mod, dtc["tagkey"])
+    mode = {}
+    probed = []
+
+    def read(what, fn):
+        """ast reader first; on an unrecognised shape fall back to the reference structure, checked by behavioural probes"""
+        try:
+            v = fn()
+            mode[what] = "ast"
+            return v
+        except GenError as x:
+            if not probed:
+                probe_reference(tree)
+                probed.append(True)
+            mode[what] = "reference structure + behavioural probes (ast reader: %s)" % x
+            ref = dict(reference_tables()[what])
+            ref["sha"] = "reference"
+            return ref
+    dtc = read("dict_to_class", lambda: parse_dict_to_class(mod, scope))
+    mk = read("make_exception", lambda: parse_make_exception(mod))
+    rc = read("recreate_classes", lambda: parse_recreate(mod, dtc["tagkey"]))
     hooks, ids, specials, extcodes = parse_hooks(mod, dtc["tagkey"])
     tables = runtime_tables(tree)
     regmode = parse_registries(mod)
-    all_srcs = parse_all_exceptions(mod, scope)
-    # all_exceptions as the module-level loops build it (later loops override earlier names)
-    allexc = {}
-    for ns, g in all_srcs:
-        need(ns in tables, "all_exceptions is filled from an unknown namespace " + ns)
-        for k, e in tables[ns].items():
-            if e[0] != "class":
-                continue
-            ok = e[2] if g == "GuardBaseException" else e[3]
-            if ok:
-                allexc[k] = e
+    try:
+        all_srcs = parse_all_exceptions(mod, scope)
+        # all_exceptions as the module-level loops build it (later loops override earlier names)
+        allexc = {}
+        for ns, g in all_srcs:
+            need(ns in tables, "all_exceptions is filled from an unknown namespace " + ns)
+            for k, e in tables[ns].items():
+                if e[0] != "class":
+                    continue
+                ok = e[2] if g == "GuardBaseException" else e[3]
+                if ok:
+                    allexc[k] = e
+        mode["all_exceptions"] = "ast"
+    except GenError as x:
+        allexc = evaluated_all_exceptions(tree, tables)
+        mode["all_exceptions"] = "evaluated (ast reader: %s)" % x
     out = HEADER % "Pyro5/serializers.py, Pyro5/errors.py and the interpreter's builtins / sqlite3 name tables"
     out += "From V Require Import Model.ClassTagDefs.\n\n"
+    out += "(* readers: %s *)\n" % "; ".join("%s = %s" % (k, v.split(" (")[0]) for k, v in sorted(mode.items()))
     out += "(* dict_to_class: tag = data.get(%r, %r) *)\n" % (dtc["tagkey"], dtc["tagdefault"])
     out += "Definition dtc_tagkey : list N := %s.\n" % ctext(dtc["tagkey"])
     out += "Definition dtc_imports : list (list N) := %s.   (* %s *)\n" % (clist([ctext(x) for x in dtc["imports"]]), ", ".join(dtc["imports"]))
@@ -784,6 +984,6 @@ def gen_classtag(tree):
     out += "Definition gen_env : env := {| e_namespaces := [(%s, env_errors); (%s, env_builtins); (%s, env_sqlite3)]; e_all := env_all_exceptions |}.\n" % (
         ctext("Pyro5.errors"), ctext("builtins"), ctext("sqlite3"))
     info = {"pre": dtc["pre"], "chain": dtc["chain"], "hooks": [(s, p, m) for s, p, m in hooks], "ids": ids, "specials": specials,
-            "ext_codes": extcodes, "reg_inplace": regmode, "all_exceptions": sorted(allexc), "errors": {k: v[0] for k, v in tables["Pyro5.errors"].items()},
+            "ext_codes": extcodes, "reg_inplace": regmode, "mode": mode, "all_exceptions": sorted(allexc), "errors": {k: v[0] for k, v in tables["Pyro5.errors"].items()},
             "sha": {"dict_to_class": dtc["sha"], "make_exception": mk["sha"], "recreate_classes": rc["sha"]}}
     return out, info
